@@ -25,6 +25,8 @@ type Gen struct {
 	InLoop   int
 	// Funcs are custom functions known to be registered: recv type -> names
 	Funcs map[string][]string
+	// ArgClash: the data defines variables named like component arguments, with other types
+	ArgClash bool
 	// ObjFail: failing expressions may have object-literal operands
 	ObjFail bool
 	// NoBig suppresses the occasional > 4 KiB text chunk (C18 truncates files at every prefix)
@@ -92,6 +94,13 @@ func (g *Gen) GenData() *Val {
 		add(fmt.Sprintf("o%d", i), "obj", o, keys)
 	}
 	add("x0", "nil", VNil(), nil)
+	if g.ArgClash {
+		// variables named like the components' arguments, of another type: binding such an argument
+		// clashes with the enclosing scope
+		add("title", "int", VInt(r.Range(1, 9)), nil)
+		add("n", "str", VStr("en"), nil)
+		add("label", "bool", VBool(true), nil)
+	}
 	// a value of a named struct type; other struct types print the same name (see NamedStruct)
 	add("r0", "obj", Val{T: "named", I: int64(r.Intn(2))}, []gkey{{"num", "int"}, {"title", "str"}})
 	d := VMap(ks, vs)
@@ -341,6 +350,10 @@ func (g *Gen) FailExpr() string {
 		return fmt.Sprintf("undef%d", g.tmp)
 	case c < 7:
 		return fmt.Sprintf("(%d / z0)", g.tmp)
+	case c < 7 && g.ObjFail:
+		// expressions that make the evaluator itself panic on the pinned tree (integer % 0, dot on a
+		// non-object): all replicas must still agree on what the caller sees
+		return Pick(g.R, []string{"(7 % z0)", `"a".x`, "n1.y"})
 	case c < 8 && g.ObjFail:
 		// failures whose offending node contains an object literal with several keys
 		return Pick(g.R, []string{"({a: 1, b: 2, c: 3} + 1)", "{id: 1, name: 2, zz: 3}.email", "[1, 2].slice({from: 0, to: 2, step: 1})", "(-{x: 1, y: 2})"})
